@@ -153,7 +153,7 @@ def check_learner(case):
 
 def _models_for(kind, draw):
     if kind == "reg":
-        return R.s_regressor(draw, recording=True)
+        return R.s_regressor(draw, recording=True, kwargs_fit=True)
     if kind == "clf":
         return R.s_classifier(draw, recording=True)
     return R.s_transformer(draw)
